@@ -568,7 +568,54 @@ func (p *Program) retarget(f *File, d *Def, text string, to *Def) {
 // injectInvalid makes the program uncompilable in one place.
 func (p *Program) injectInvalid() {
 	f := p.Files[ch("invalid.file", len(p.Files))]
-	switch ch("invalid.kind", 6) {
+	switch ch("invalid.kind", 12) {
+	case 6:
+		// a cycle of typedefs (no struct on the way), possibly through a container
+		n := 1 + ch("invalid.cycle-len", 3)
+		names := make([]string, n)
+		for i := range names {
+			names[i] = p.name("Tc")
+		}
+		wrap := ch("invalid.cycle-wrap", 3)
+		for i := range names {
+			t := &TypeRef{Ref: &Ref{f.Index, names[(i+1)%n]}}
+			if i == 0 && wrap == 1 {
+				t = &TypeRef{Base: "list", Elem: t}
+			} else if i == 0 && wrap == 2 {
+				t = &TypeRef{Base: "map", Key: &TypeRef{Base: "string"}, Elem: t}
+			}
+			p.add(f, &Def{Kind: KTypedef, Name: names[i], Type: t})
+		}
+		if simrt.Flip("invalid.cycle-used", 0.5) {
+			p.add(f, &Def{Kind: KStruct, Name: p.name("S"), Fields: []*FieldDef{{ID: 1, Name: "loop", Req: ReqOptional, Type: &TypeRef{Ref: &Ref{f.Index, names[ch("invalid.cycle-entry", n)]}}}}})
+		}
+		p.Invalid = "typedef cycle in " + f.RelPath()
+	case 7:
+		p.add(f, &Def{Kind: KService, Name: p.name("Svc"), Parent: &Ref{f.Index, "NoSuchService"}, Funcs: []*Func{{Name: "ping"}}})
+		p.Invalid = "service extends an unknown service in " + f.RelPath()
+	case 8:
+		st := p.add(f, &Def{Kind: KStruct, Name: p.name("S"), Fields: []*FieldDef{{ID: 1, Name: "x", Req: ReqOptional, Type: &TypeRef{Base: "i32"}}}})
+		p.add(f, &Def{Kind: KService, Name: p.name("Svc"), Funcs: []*Func{{Name: "fails", Excs: []*FieldDef{{ID: 1, Name: "err1", Req: ReqOptional, Type: &TypeRef{Ref: &Ref{st.File, st.Name}}}}}}})
+		p.Invalid = "a function throws a struct that is not an exception in " + f.RelPath()
+	case 9:
+		if len(f.Defs) == 0 {
+			p.add(f, &Def{Kind: KEnum, Name: p.name("E"), Items: []EnumItem{{Name: "ONLY", Value: 0}}})
+		}
+		twin := f.Defs[ch("invalid.dup-of", len(f.Defs))]
+		name := twin.Name
+		if i := strings.LastIndex(name, "."); i >= 0 {
+			name = name[i+1:]
+		}
+		p.add(f, &Def{Kind: KTypedef, Name: twin.Name, Type: &TypeRef{Base: "i64"}})
+		p.Invalid = "the name " + twin.Name + " is defined twice in " + f.RelPath()
+	case 10:
+		p.add(f, &Def{Kind: KStruct, Name: p.name("S"), Fields: []*FieldDef{
+			{ID: 1, Name: "a", Req: ReqOptional, Type: &TypeRef{Base: "i32"}},
+			{ID: 1, Name: "b", Req: ReqOptional, Type: &TypeRef{Base: "i32"}}}})
+		p.Invalid = "two fields with the same identifier in " + f.RelPath()
+	case 11:
+		p.add(f, &Def{Kind: KService, Name: p.name("Svc"), Funcs: []*Func{{Name: "fire", OneWay: true, Ret: &TypeRef{Base: "i32"}}}})
+		p.Invalid = "a oneway function with a return type in " + f.RelPath()
 	case 3:
 		p.add(f, &Def{Kind: KConst, Name: p.name("C"), Type: &TypeRef{Base: "bool"}, Value: &ConstVal{Kind: CInt, Int: 2}})
 		p.Invalid = "bool constant 2 in " + f.RelPath()
